@@ -59,6 +59,12 @@ def cases(rng, tier):
                 # (a geometry OBJECT is the library's internal way of sharing a buffer between arrays: its size is not checked
                 #  against the buffer and the property does not speak about it; mismatches are given as lengths)
                 out.append({"kind": "flat", "lens": lens, "dtype": dt, "vseed": 1, "ndata": nd, "form": rng.randint(0, 2)})
+    # scale: many rows (more than 2**16, more than 100000) and long rows (more than 2**8 / 2**16 cells); implementation vs oracle only
+    for lens in ([[rng.choice([0, 1, 2]) for _ in range(66000)], [300, 0, 65537, 1, 257]] if tier == "quick" else
+                 [[rng.choice([0, 1, 2]) for _ in range(n)] for n in (65535, 65537, 100001, 200001)] + [[300, 0, 65537, 1, 257], [70000, 70000], [0] * 65537 + [5]]):
+        if len(lens) < 100 or tier != "quick":
+            out.append({"kind": "shape", "lens": lens, "big": True})
+        out.append({"kind": "flat", "lens": lens, "dtype": rng.choice(["int64", "int8", "float32"]), "vseed": rng.randint(0, 999), "ndata": sum(lens), "form": rng.randint(0, 3), "big": True})
     if tier == "thorough":
         for lens in gens.shapes_exhaustive(3, 3):
             for dt in gens.DTYPES:
@@ -67,6 +73,8 @@ def cases(rng, tier):
 
 
 def key(p):
+    if p.get("big"):
+        return (p["kind"], len(p["lens"]), sum(p["lens"]), p.get("dtype"))
     return (p["kind"], tuple(p["lens"]), p.get("dtype"), p.get("ndata"))
 
 
@@ -311,6 +319,8 @@ def oracle(p):
 
 
 def lean_request(p):
+    if p.get("big"):
+        return None
     if p["kind"] == "shape":
         return {"op": "C01.shape", "lens": p["lens"]}
     if p["kind"] == "rows":
